@@ -89,6 +89,7 @@ def _append_external_modules_to_module_list(
     if exclude_external_libraries:
         return all_modules
 
+    internal_modules = set(all_modules)
     all_modules = ImporteeModuleCalculator(root_path).calculate_importee_modules(
         imports,
         all_modules,
@@ -99,7 +100,12 @@ def _append_external_modules_to_module_list(
     if not file_filter.has_filter():
         return all_modules
 
-    return [module for module in all_modules if not file_filter.is_excluded(module)]
+    # external exclusion patterns only ever apply to external modules
+    return [
+        module
+        for module in all_modules
+        if module in internal_modules or not file_filter.is_excluded(module)
+    ]
 
 
 def _remove_excluded_imports(
